@@ -60,6 +60,9 @@ pub struct Cfg3 {
     pub frame_read_rate: Option<(u16, u16, u32)>,
     pub router: bool,
     pub hs: Hs3,
+    /// server: `HandshakeAck::max_packet_size`
+    #[serde(default)]
+    pub hs_max_packet: Option<u32>,
     pub connect: s3::Connect3,
     /// client role: (session present, return code) of the scripted CONNACK
     pub connack: (bool, u8),
@@ -81,6 +84,7 @@ impl Default for Cfg3 {
             frame_read_rate: None,
             router: false,
             hs: Hs3::default(),
+            hs_max_packet: None,
             connect: s3::Connect3 { client_id: "cid".into(), clean_session: true, ..Default::default() },
             connack: (false, 0),
         }
@@ -254,6 +258,7 @@ async fn protocol_handler(app: Rc<App>, msg: v3::ProtocolMessage) -> Result<v3::
 
 pub async fn server_pipeline(app: Rc<App>, cfg: &Cfg3, sinks: Rc<RefCell<Vec<v3::MqttSink>>>) -> SrvPipeline {
     let hs = cfg.hs.clone();
+    let hs_max_packet = cfg.hs_max_packet;
     let app_h = app.clone();
     let handshake = move |h: v3::Handshake| {
         let hs = hs.clone();
@@ -275,6 +280,9 @@ pub async fn server_pipeline(app: Rc<App>, cfg: &Cfg3, sinks: Rc<RefCell<Vec<v3:
                     }
                     if max_send.is_some() {
                         ack = ack.max_send(max_send);
+                    }
+                    if let Some(m) = hs_max_packet.and_then(std::num::NonZeroU32::new) {
+                        ack = ack.max_packet_size(m);
                     }
                     Ok::<_, AppErr>(ack)
                 }
